@@ -8,16 +8,16 @@ from vt import detsched as ds, aosim, sysx
 ID = 'C05'
 ENGINE = 'detsched'
 TECHNIQUE = 'runtime monitoring under a deterministic cooperative scheduler: bounded-progress monitor (fair round-robin suffix, step budget) and exact deadlock detection at quiescence; a few small scenarios per run are enumerated systematically (every schedule within a delay bound, vt/sysx.py)'
-RULE = ('a started ActiveObject (spied or not, instrumented or not, live spy/trace output on in a share of the spied runs) and 1-4 poster threads x 1-6 unique-id events (fifo/lifo mixed, handlers that post further events; in 15% of the runs the pending-event queue has capacity 2-4 instead of 500 and the posters race at and beyond a FULL queue), all real '
+RULE = ('a started ActiveObject (spied or not, instrumented or not, live spy/trace output on in a share of the spied runs) and 1-4 poster threads x 1-6 unique-id events (fifo/lifo mixed, handlers that post further events; in 15% of the runs the pending-event queue has capacity 2-4 instead of 500 and the posters race at and beyond a FULL queue, in most of these runs with handlers that post further events - fifo and lifo - from the object\'s own thread while the queue is full), all real '
         'threads run one at a time by detsched with yield points at every line of miros/activeobject.py and of the queue functions of '
         'miros/hsm.py and around every Queue/Thread primitive; seeded random or PCT schedule prefix, then FAIR round-robin; every post must '
         'return and the system must reach quiescence (posters finished, consumer waiting, queue empty) within B = 40000 + 3000 x events '
         'yield points (correct runs need < 3000); a quiescent state with a blocked poster is a deadlock. Liveness is decided in this '
-        'bounded-progress form only. distinct_nontrivial = distinct context-switch sequences (projected on thread roles and locations) of '
+        'bounded-progress form only. Two DIRECTED schedules (waypoint policy of vt/detsched.py) are replayed every 50 cases for windows too narrow for sampling: the top-up test of a poster split by the consumer, and an object\'s own post (from a handler, queue at capacity-1) split by an outside poster that fills the last wake-up-token slot. distinct_nontrivial = distinct context-switch sequences (projected on thread roles and locations) of '
         'runs with >= 2 posters or >= 1 handler post. ' + sysx.RULE_TEXT % (1, 1))
 CASES = {'quick': 800, 'thorough': 60000}
 BUDGET = {'quick': 150, 'thorough': 600}
-REQUIRE = {'runs': 300, 'runs_with_racing_posters': 100, 'runs_with_live_output_on': 40, 'runs_with_small_queue_capacity': 50, 'systematic_schedules': 100, 'poster_between_token_put_and_append': 20, 'consumer_between_get_and_popleft': 20}
+REQUIRE = {'runs': 300, 'runs_with_racing_posters': 100, 'runs_with_live_output_on': 40, 'runs_with_small_queue_capacity': 50, 'runs_with_handler_posts_at_a_full_queue': 25, 'directed_full_queue_schedules_run': 10, 'directed_schedules_followed_to_the_end': 20, 'systematic_schedules': 100, 'poster_between_token_put_and_append': 20, 'consumer_between_get_and_popleft': 20}
 ASSUME = ['"eventually" is restated as bounded progress under a fair suffix; unbounded liveness is out of reach of a finite run',
           'switches happen at line starts of the focus files and around (never inside) calls of real primitives']
 ANNOUNCE_CASES = True
@@ -109,6 +109,7 @@ def run_scenario(ctx, rng, plans, fan, nev, spied, instrumented, check=None, ext
       for t in ths:
         t.join()
       s.quiesce()
+      result['blocked_at_quiescence'] = s.blocked_report()
     except ds.Verdict as v:
       ld = ao.locking_deque
       result.update(verdict=v.kind, info=v.info, tokens=ds._q.Queue.qsize(ld.locking_queue), pending=len(ld.deque),
@@ -190,12 +191,92 @@ def directed_case(ctx, n):
       ctx.count('zombie_threads', z)
 
 
+def directed_full_queue_case(ctx, n):
+  """DIRECTED schedule, witness 2 ('own post split by an outside poster at a full queue'): an object whose queue holds
+  capacity-1 events handles one whose handler posts to the object itself; the object's thread has looked at the wake-up token
+  queue (one slot free) when an outside poster posts an event - and fills that slot - and finishes; the object's own post must
+  still return (its thread is the only one that ever takes a token), and the system must reach quiescence on an empty queue"""
+  import miros.hsm as H
+  from miros.event import signals, return_status as RS
+  rng = ctx.rng('directed-full', n)
+  cap = rng.choice([2, 3, 4])
+  own_kind, outside_kind = rng.choice(['fifo', 'lifo']), rng.choice(['fifo', 'lifo'])
+  s = ds.Sched(seed=1, policy='directed', max_steps=400000)
+  hist = aosim.History()
+  aosim.install(s)
+  try:
+    saved = H.HsmWithQueues.QUEUE_SIZE
+    H.HsmWithQueues.QUEUE_SIZE = cap
+    try:
+      ao = aosim.make_ao(hist, instrumented=rng.random() < 0.5)
+    finally:
+      H.HsmWithQueues.QUEUE_SIZE = saved
+    gate = [False]
+
+    def st(chart, e):
+      if e.signal in (signals.ENTRY_SIGNAL, signals.INIT_SIGNAL, signals.EXIT_SIGNAL):
+        return RS.HANDLED
+      if e.signal_name == 'EVT':
+        if e.payload == 0:
+          ds.S.wait_until(lambda: gate[0], 'gate')          # holds the object's thread while the queue is filled
+        if e.payload == 1:
+          (chart.post_fifo if own_kind == 'fifo' else chart.post_lifo)(Event(signal='EVT', payload=10))
+        return RS.HANDLED
+      chart.temp.fun = chart.top
+      return RS.SUPER
+    st.__name__ = 'c05_full_state'
+    state = H.spy_on(st) if rng.random() < 0.5 else st
+    consumer = lambda t: t.role == 'run_event'
+    outside = lambda t: t.role == 'outside_poster'
+    s.waypoints = [(consumer, lambda loc: gate[0] and loc == 'Queue.full:returned'), (outside, 'finished')]
+    wit = {'directed': 'own post split by an outside poster at a full queue', 'capacity': cap, 'own_post': own_kind, 'outside_post': outside_kind}
+
+    def outside_poster():
+      ds.S.wait_until(lambda: s.wp_i >= 1, 'the object has looked at its token queue')
+      (ao.post_fifo if outside_kind == 'fifo' else ao.post_lifo)(Event(signal='EVT', payload=20))
+    try:
+      ao.start_at(state)
+      s.quiesce()
+      ao.post_fifo(Event(signal='EVT', payload=0))
+      s.quiesce()                       # the object's thread now waits inside the handler of event 0
+      for u in range(1, cap + 1):
+        ao.post_fifo(Event(signal='EVT', payload=u))
+      t = ds.SThread(target=outside_poster)
+      t.start()
+      gate[0] = True
+      t.join()
+      s.quiesce()
+      blocked = s.blocked_report()
+    except ds.Verdict as v:
+      ctx.violation('C05/%s' % v.kind, 'directed schedule (%s) ended in %s: %r' % (wit['directed'], v.kind, (v.info or {}).get('blocked')), wit)
+      return
+    ctx.count('directed_schedules_run')
+    ctx.count('directed_full_queue_schedules_run')
+    if s.wp_i == len(s.waypoints):
+      ctx.count('directed_schedules_followed_to_the_end')
+    ctx.distinct(('directed-full', cap, own_kind, outside_kind, s.wp_i))
+    exc = [(t.name, t.role, repr(t.exc)) for t in s.threads if t.exc is not None]
+    left, tokens = len(ao.locking_deque.deque), ds._q.Queue.qsize(ao.locking_deque.locking_queue)
+    wit.update(waypoints_reached=s.wp_i, of=len(s.waypoints), dispatched=[d['uid'] for d in hist.dispatch], blocked_threads=blocked, switch_trail_tail=s.trail[-30:])
+    if exc:
+      ctx.violation('C05/exception-in-thread', 'directed schedule: a thread died: %r' % exc, wit)
+    elif left:
+      ctx.violation('C05/quiescent-with-events-left', 'directed schedule (%s): every poster has finished and no thread can run, but %d event(s) are still queued with %d wake-up token(s); blocked threads: %r' % (
+        wit['directed'], left, tokens, [b for b in blocked if b[1] == 'run_event']), wit)
+  finally:
+    z = ds.uninstall()
+    if z:
+      ctx.count('zombie_threads', z)
+
+
 SYS = {'quick': (2, 1, 2000, 45.0), 'thorough': (32, 1, 100000, 150.0)}     # systematic cases, deviation bound, schedule cap, seconds cap (per scenario)
 
 
 def run_case(ctx, n):
   if n % 50 == 49:
     return directed_case(ctx, n)
+  if n % 50 == 24:
+    return directed_full_queue_case(ctx, n)
   sysx.run_case(ctx, n, SYS, scenario)
 
 
@@ -216,6 +297,18 @@ def scenario(ctx, n):
     extras = dict(extras or {}, capacity=rng.choice([2, 3, 4]))
     plans = [[(k, u * 10 + j) for j in range(3)] for pl in plans for (k, u) in pl][:4]
     fan, nev = {}, sum(len(p) for p in plans)
+    if rng.random() < 0.6:
+      # ... and the handlers of some of these events post further events themselves (fifo / lifo): a post made by the object's own
+      # thread while its queue - and the wake-up token queue behind it - is full
+      nxt = max(u for pl in plans for _, u in pl) + 1
+      for pl in plans:
+        for _, u in pl:
+          if rng.random() < 0.4:
+            fan[u] = [(rng.choice(['fifo', 'lifo', 'lifo']), nxt + j) for j in range(rng.randint(1, 2))]
+            nxt += 2
+      nev += sum(len(v) for v in fan.values())
+      if fan:
+        ctx.count('runs_with_handler_posts_at_a_full_queue')
     ctx.count('runs_with_small_queue_capacity')
   result, s, hist, ao = run_scenario(ctx, rng, plans, fan, nev, spied, instrumented, extras=extras)
   ctx.count('runs')
@@ -239,6 +332,6 @@ def scenario(ctx, n):
     ctx.violation('C05/exception-in-thread', 'a thread died: %r' % result['thread_exceptions'], wit)
   elif len(ao.locking_deque.deque) != 0:
     ctx.violation('C05/quiescent-with-events-left', 'every poster has finished and no thread can run, but %d events are still queued (%d wake-up tokens): the system is not quiescent in the sense of the statement (consumer waiting on an EMPTY queue)' % (
-      len(ao.locking_deque.deque), ds._q.Queue.qsize(ao.locking_deque.locking_queue)), wit)
+      len(ao.locking_deque.deque), ds._q.Queue.qsize(ao.locking_deque.locking_queue)), dict(wit, blocked_threads=result.get('blocked_at_quiescence')))
   if n < 2:
     ctx.sample({'plans': plans, 'fan': fan, 'steps': result.get('steps'), 'switches': result.get('switches'), 'trail_head': s.trail[:15]})
